@@ -338,7 +338,8 @@ def sRandMemberH (args : List Bytes) : HRes :=
   | [] => errReply
   | key :: rest =>
     let cnt := match rest with | c :: _ => parseIntGo c | [] => (1, false)
-    if cnt.2 then errReply else
+    -- a count below -maxRandomCount (1 <<< 20) is rejected like a non-number
+    if cnt.2 || cnt.1 < -1048576 then errReply else
     let hasCount := !rest.isEmpty
     .exec fun s now ch =>
       call (Api.srandmember s now key cnt.1 (ch.getD [])) fun s o =>
